@@ -64,10 +64,10 @@ TrEnd == IsEv("end") /\ Pending = {} /\ hand = None /\ q = <<>> /\ lst # "closin
 Silent ==
   /\ \/ \E x \in XCalls : Register(x) \/ Wake(x) \/ HandToExpect(x)
      \/ \E a \in ACalls : HandToAccept(a)
-     \/ Refuse \/ DropClosed
+     \/ Refuse \/ ToAcc \/ DropClosed
   /\ UNCHANGED l
 
-Inv == C06_TakeOver /\ C06_NoStaleEntry /\ C06_SessionOnce /\ C06_Outcome /\ C15_OpenIffAccepted
+Inv == C06_TakeOver /\ C06_NoStaleEntry /\ C06_SessionOnce /\ C06_Outcome /\ C06_ExpectGetsItsSession /\ C15_OpenIffAccepted
 
 TNext ==
   /\ l < EndOf(t0)
